@@ -250,10 +250,15 @@ class Multisphere(ScatteringTheory):
         # calculate forward scattering
         asm_fwd = _asm_far(0., 0., amn, lmax)
 
-        ainc_sph = pol * np.array([1., -1.]) # assume theta, phi = 0
-        ascat_sph = np.dot(asm_fwd, ainc_sph) * np.array([1., -1.])
-        # at theta, phi = 0, ascat_cart = ascat_sph
-        cext = 4. * np.pi / medium_wavevec**2 * np.dot(pol, ascat_sph).real
+        # at theta = phi = 0 the matrix returned by asm relates the (x, y)
+        # components of the incident and scattered amplitudes as they are.
+        # (Flipping the sign of the y components on the way in and out, as
+        # was done here, evaluates the extinction for the mirror-image
+        # polarization (px, -py): not invariant under rotating cluster and
+        # polarization together, and negative absorption for clusters of
+        # non-absorbing spheres.)
+        ascat = np.dot(asm_fwd, pol)
+        cext = 4. * np.pi / medium_wavevec**2 * np.dot(pol, ascat).real
         return cext
 
     def raw_scat_matrs(self, scatterer, pos, medium_wavevec, medium_index):
